@@ -92,7 +92,14 @@ func (k *collector) parallel(n int, f func(i int)) {
 					k.timeout.Store(true)
 					return
 				}
-				f(i)
+				func() {
+					defer func() {
+						if r := recover(); r != nil {
+							k.fail(k.c.Prop+": the code under test panicked", fmt.Sprintf("case #%d: panic: %v", i, r), i)
+						}
+					}()
+					f(i)
+				}()
 			}
 		}()
 	}
